@@ -61,10 +61,12 @@ def entry_cfg(stride, offset, emit=True, bug="none", laws=ENTRY_LAWS):
 def hist_configs(tier):
     """(name, ids, contents, MaxPut, MaxDam); sizes fitted to measured transition counts (see REGISTRY note)"""
     if tier == "quick":
-        return [("h22", ["i1", "i2"], ["c0", "c2", "c3"], 2, 2)]          # 196,415 transitions, 12,000 states
-    return [("h32", ["i1", "i2"], ["c0", "c1", "c2", "c3"], 3, 2),      # 1.72M transitions, 80,631 states
-            ("i3", ["i1", "i2", "i3"], ["c0", "c2", "c3"], 2, 2),       # 0.77M transitions, 39,402 states
-            ("h23", ["i1", "i2"], ["c0", "c2", "c3"], 2, 3)]            # 1.69M transitions, 88,234 states
+        return [("h22", ["i1", "i2"], ["c0", "c2", "c3"], 2, 2)]          # 196,415 transitions, 12,000 states, 76k tests
+    return [("h32", ["i1", "i2"], ["c0", "c2", "c3"], 3, 2),            # 495,642 transitions, 25,389 states, 241k tests
+            ("c4", ["i1", "i2"], ["c0", "c1", "c2", "c3"], 2, 2),       # 568,169 transitions, 32,205 states, 214k tests
+            ("i3", ["i1", "i2", "i3"], ["c0", "c2", "c3"], 2, 2),       # 768,181 transitions, 39,402 states, 256k tests
+            ("d3", ["i1", "i2"], ["c2", "c3"], 2, 3),                   # 488,308 transitions, 28,792 states, 229k tests
+            ("deep", ["i1"], ["c2", "c3"], 3, 4)]                       # 376,984 transitions, 24,447 states, 230k tests
 
 
 def selftest(ctx):
@@ -114,24 +116,29 @@ def check(ctx):
         res = tlc(ctx, SPECDIR, "MC_CacheSeq.tla", "MC_%s.cfg" % name, cfg_text=hist_cfg(ids, contents, maxput, maxdam),
                   emit_to=cases, workers=min(NCPU, 12), timeout=2400, name="MC_" + name)
         require_tlc_ok(res, "laws of the statement on the cache model (%s)" % name)
-        if res.emits != res.generated:      # 1 config line + one line per transition (generated = transitions + 1 initial state)
-            raise NoVerdict("TLC emitted %d lines for %d generated states (%s)" % (res.emits, res.generated, name))
+        # every state has exactly 3|Ids| + |Contents| + 1 lookup self-loops; every other transition and the initial state
+        # are emitted as tests (+ 1 config line): certifies on the TLC side that no transition was left out
+        loops = res.distinct * (3 * len(ids) + len(contents) + 1)
+        if res.emits - 2 != res.generated - 1 - loops:
+            raise NoVerdict("TLC emitted %d tests for %d transitions of which %d are lookups (%s)"
+                            % (res.emits - 2, res.generated - 1, loops, name))
         out = ctx.path("replay-%s.json" % name)
         run_driver(ctx, [drv, "-mode", "hist", "-cases", cases, "-work", ctx.mkdir("work-" + name), "-out", out], timeout=2400)
         r = absorb(out, "hist")
         c = r["counters"]
         if c.get("cases", 0) != res.emits - 1:
-            raise NoVerdict("driver replayed %d of %d emitted transitions (%s)" % (c.get("cases", 0), res.emits - 1, name))
-        hist_transitions += res.emits - 1
+            raise NoVerdict("driver replayed %d of %d emitted tests (%s)" % (c.get("cases", 0), res.emits - 1, name))
+        hist_transitions += res.generated - 1
         runs.append(dict(config=name, ids=len(ids), contents=contents, max_put=maxput, max_damage=maxdam,
-                         tlc_distinct_states=res.distinct, transitions_emitted=res.emits - 1, replayed=c.get("cases", 0),
+                         tlc_distinct_states=res.distinct, transitions=res.generated - 1, lookup_self_loops=loops,
+                         tests_emitted=res.emits - 1, replayed=c.get("cases", 0),
                          completed=c.get("completed", 0), violations=c.get("violations_total", 0), drift=c.get("drift_total", 0)))
-        log("C05 %s: %d states, %d transitions emitted and replayed, %d violations, drift %d"
-            % (name, res.distinct, res.emits - 1, c.get("violations_total", 0), c.get("drift_total", 0)))
+        log("C05 %s: %d states, %d transitions (%d lookups) covered by %d replayed tests, %d violations, drift %d"
+            % (name, res.distinct, res.generated - 1, loops, res.emits - 1, c.get("violations_total", 0), c.get("drift_total", 0)))
         os.remove(cases)
 
     # (A2) index entries: the neighbourhood of the entry Put writes
-    stride = 97 if ctx.tier == "quick" else 5
+    stride = 97 if ctx.tier == "quick" else 3
     offset = ctx.seed % stride
     cases = ctx.path("cases-entries.ndjson")
     res = tlc(ctx, SPECDIR, "MC_IndexEntry.tla", "MC_entries.cfg", cfg_text=entry_cfg(stride, offset), emit_to=cases,
